@@ -247,19 +247,29 @@ class Exemptions:
             return False
         kw = call.keywords[0]
         v = kw.value
-        if not (isinstance(v, ast.Subscript) and isinstance(v.slice, ast.Constant) and v.slice.value == "last"
-                and isinstance(v.value, ast.Name)):
-            return False
-        lits = [n.value for n in iter_own_nodes(f.node) if isinstance(n, ast.Assign)
-                and any(isinstance(t, ast.Name) and t.id == v.value.id for t in n.targets)]
-        if len(lits) != 1 or not isinstance(lits[0], ast.Dict):
-            return False
+
+        def once(name):
+            """the value of a local bound exactly once (and not a parameter), else None"""
+            ds = [n.value for n in iter_own_nodes(f.node) if isinstance(n, ast.Assign) and len(n.targets) == 1
+                  and isinstance(n.targets[0], ast.Name) and n.targets[0].id == name]
+            st = sum(1 for n in iter_own_nodes(f.node) if isinstance(n, ast.Name) and n.id == name and isinstance(n.ctx, ast.Store))
+            return ds[0] if len(ds) == 1 and st == 1 and name not in f.params() else None
         last = None
-        for k, val in zip(lits[0].keys, lits[0].values):
-            if isinstance(k, ast.Constant) and k.value == "last":
-                last = val
+        if isinstance(v, ast.Subscript) and isinstance(v.slice, ast.Constant) and v.slice.value == "last" and isinstance(v.value, ast.Name):
+            lit = once(v.value.id)
+            if not isinstance(lit, ast.Dict):
+                return False
+            for k, val in zip(lit.keys, lit.values):
+                if isinstance(k, ast.Constant) and k.value == "last":
+                    last = val
+        elif isinstance(v, ast.Name):
+            last = v                # the last valid value kept in a local of its own
         if last is None:
             return False
+        if isinstance(last, ast.Name):
+            last = once(last.id)
+            if last is None:
+                return False
         recv = ast.unparse(call.func.value) if isinstance(call.func, ast.Attribute) else None
         if kw.arg == "month":
             return isinstance(last, ast.Constant) and last.value == 12
@@ -499,15 +509,17 @@ class Exemptions:
         return bool(names) and names[-1] == "MS_SEARCHER"
 
     def _year_directives_listed(self):
+        """%y and %Y are listed as stating the year.  True / False when the table can be read; when it cannot (it is kept in a form no reader
+        here knows) the exemption is 'cannot decide' - an AnalysisError - not 'does not hold'"""
+        from ..core.repo import AnalysisError as _AE
         f = self.ix.funcs.get("dateparser.utils:_get_missing_parts")
         if f is None:
-            return False
+            raise _AE("exemption", "_get_missing_parts not found")
         try:
             from .c08 import format_part_table
             table, _ = format_part_table(self.ctx, "C02.R1")       # reads the table wherever the function keeps it
-            if {"%y", "%Y"} <= set(table.get("year", ())):
-                return True
-        except Exception:
+            return {"%y", "%Y"} <= set(table.get("year", ()))
+        except _AE:
             pass
         for n in iter_own_nodes(f.node):
             if isinstance(n, ast.Dict):
@@ -515,9 +527,9 @@ class Exemptions:
                     d = ast.literal_eval(n)
                 except Exception:
                     continue
-                if isinstance(d.get("year"), list) and {"%y", "%Y"} <= set(d["year"]):
-                    return True
-        return False
+                if isinstance(d.get("year"), list):
+                    return {"%y", "%Y"} <= set(d["year"])
+        raise _AE("exemption", "_get_missing_parts: the table of directives that state a part is kept in a form this analysis cannot read")
 
     def _load_data_validates_first(self):
         f = self.ix.funcs.get("dateparser.languages.loader:LocaleDataLoader._load_data")
